@@ -370,3 +370,7 @@ def run(ctx):
     r6(ctx)
     r7(ctx)
     fresh_answer_rule(ctx, 'C15.R9')
+    import rules.C02 as c02
+    ctx.borrow(c02.r2, {'C02.R2': 'C15.R10'},
+               'the response and its CRC are sent through the same symbol selection and escape block as an own command: an '
+               'unescaped A9/AA in the answer ends the transfer')
